@@ -386,7 +386,8 @@ def matcher_value(m, chunks: Sequence[str], expected_text: Optional[str] = None)
     if kind == 'every-le':
         return len(chunks) <= m[1]
     if kind == 'any':
-        return any(_content(c) == m[1] for c in chunks)
+        wanted = m[1] if expected_text is None else expected_text
+        return any(_content(c) == wanted for c in chunks)
     if kind == 'empty':
         return ''.join(chunks) == ''
     if kind == 'matches':
@@ -407,6 +408,9 @@ def d2_flips_verdict(actual_node, m) -> bool:
     exp = {None: True}
     if m[0] == 'eq':
         exp = closure(m[1]).values
+    elif m[0] == 'any' and '\r' in m[1]:
+        # a string with CR cannot be written in a case file: it is given as `-contents-of FILE` - a text held in a file
+        exp = {m[1]: True, universal(m[1]): False}
     for v, proper in acl.items():
         for et, eproper in exp.items():
             if proper and eproper:
